@@ -283,7 +283,9 @@ CtorOmit == /\ "ctor" \in Acts /\ Kind \in {"dict", "obj", "nest"}
 
 \* ---- Kind = "nest": nested objects, partial values and non-partial holders
 \* the free-standing object `ext` (it has a parent of its own, so the holder stores a copy) is written into the holder
-NSetExt(name) == \E sc \in P(Scopes) : AvoidOK(FW(root, 1, ext, Eff(sc)), 1) /\ StepF(FW(root, 1, ext, Eff(sc)), sc, <<name, sc>>)
+\* (not generated: a partial `ext` written into a partial holder outside any scope -- the copy the holder makes is
+\*  re-validated by the non-partial classes of `ext` and fails; stricter than the schema, not a violation of it)
+NSetExt(name) == \E sc \in P(Scopes) : ~(HasMissing(ext) /\ sc = "N" /\ InitPartial) /\ AvoidOK(FW(root, 1, ext, Eff(sc)), 1) /\ StepF(FW(root, 1, ext, Eff(sc)), sc, <<name, sc>>)
 NSetExtAttr == "nest" \in Acts /\ Kind = "nest" /\ NSetExt("NSetExtAttr")          \* holder.k1 = ext
 NSetExtRebind == "nest" \in Acts /\ Kind = "nest" /\ NSetExt("NSetExtRebind")      \* holder.rebind(k1=ext)
 \* a write to the leaf two levels below an A object: x.k1.k1 = v  (x = ext, or the A object the holder stores)
